@@ -27,10 +27,12 @@ type FlagCase struct {
 	TLS string `json:"tls"`
 	// OnDemand: the tls block also carries an on-demand subdirective ("" | max_certs | ask)
 	OnDemand string `json:"on_demand,omitempty"`
+	// Extra: a second tls directive with options only follows the first
+	Extra bool `json:"extra,omitempty"`
 }
 
 func (c *FlagCase) directive() string {
-	arg := map[string]string{"off": " off", "email": " admin@example.com", "email_off": " off", "self_signed": " self_signed"}[c.TLS]
+	arg := map[string]string{"off": " off", "email": " admin@example.com", "email_off": " off", "self_signed": " self_signed", "manual": " " + manualCrt + " " + manualKey}[c.TLS]
 	var sub []string
 	if c.TLS == "no_redirect" {
 		sub = append(sub, "no_redirect")
@@ -48,6 +50,9 @@ func (c *FlagCase) directive() string {
 	if len(sub) > 0 {
 		d += " {\n\t" + strings.Join(sub, "\n\t") + "\n}"
 	}
+	if c.Extra {
+		d += "\ntls {\n\tprotocols tls1.2 tls1.3\n}"
+	}
 	return d
 }
 
@@ -61,6 +66,9 @@ func runFlags(c *FlagCase) (bool, error) {
 		return false, fmt.Errorf("SKIP-REJECTED: %v", err)
 	}
 	if c.directive() != "" {
+		if e := seed(); e != nil {
+			return false, fmt.Errorf("HARNESS: seeding certificate storage: %v", e)
+		}
 		setup, err := casket.DirectiveAction("http", "tls")
 		if err != nil {
 			return false, fmt.Errorf("HARNESS: %v", err)
@@ -89,9 +97,14 @@ func TestFlags(t *testing.T) {
 			Scheme: rapid.SampledFrom([]string{"", "", "http", "https"}).Draw(t, "scheme"),
 			Host:   rapid.SampledFrom(hostClasses).Draw(t, "host"),
 			Port:   rapid.SampledFrom([]string{"", "", "80", "443", "8080", "8443"}).Draw(t, "port"),
-			TLS:    rapid.SampledFrom([]string{"", "", "off", "email", "email_off", "self_signed", "self_signed", "no_redirect"}).Draw(t, "tls"),
+			TLS:    rapid.SampledFrom([]string{"", "", "off", "email", "email_off", "self_signed", "self_signed", "no_redirect", "manual"}).Draw(t, "tls"),
 		}
-		if c.TLS != "off" && c.TLS != "email_off" {
+		if c.TLS == "manual" || c.TLS == "self_signed" || c.TLS == "email" {
+			c.Extra = rapid.Bool().Draw(t, "extra")
+		}
+		// manual + on-demand is the combination the code singles out on purpose ("user might provide own cert and
+		// key" next to on-demand issuance): left out, like on-demand on hosts that cannot be judged at start
+		if c.TLS != "off" && c.TLS != "email_off" && c.TLS != "manual" {
 			c.OnDemand = rapid.SampledFrom([]string{"", "", "max_certs", "ask"}).Draw(t, "od")
 		}
 		if !hostQualifies(c.Host) {
